@@ -3,10 +3,10 @@ import numpy as np
 
 from .. import build, core, gen
 
-DIMS_Q = [(1, 1), (2, 1), (1, 2), (2, 2), (3, 2), (2, 3)]   # (Dx, Dy): Dx>Dy, Dx=Dy, Dx<Dy
-DIMS_T = DIMS_Q + [(3, 1), (1, 3), (3, 3), (4, 2), (2, 4), (5, 3), (3, 5), (4, 4)]
-LAYOUTS = [(1, 1), (1, 3), (3, 1)]   # (R_cond, R_x)
-LAYOUTS_T = LAYOUTS + [(1, 5), (4, 1), (2, 1), (1, 2)]
+DIMS_Q = [(1, 1), (2, 1), (1, 2), (2, 2), (3, 2), (2, 3), (4, 2), (3, 5), (4, 4)]   # (Dx, Dy): Dx>Dy, Dx=Dy, Dx<Dy
+DIMS_T = DIMS_Q + [(3, 1), (1, 3), (3, 3), (2, 4), (5, 3), (6, 2), (2, 6), (5, 5)]
+LAYOUTS = [(1, 1), (1, 3), (3, 1), (1, 5), (4, 1)]   # (R_cond, R_x)
+LAYOUTS_T = LAYOUTS + [(1, 6), (6, 1), (2, 1), (1, 2)]
 
 
 def cells(tier, tag):
